@@ -54,4 +54,46 @@ AllNearestInside(m, ext, sw, sh, One) ==
 AllBilinearInside(m, ext, sw, sh, One) ==
     \A c \in Corners(ext[1], ext[2], ext[3], ext[4]) :
         BilinearInside(PosX(m, c[1], c[2]), sw, One) /\ BilinearInside(PosY(m, c[1], c[2]), sh, One)
+
+(* ---- the same at full 16.16 resolution for coordinates beyond what a 32-bit product can hold ---- *)
+(* TLC's integers are 32 bits wide; m * x with |m| <= 16.0 (2^20) and |x| up to 2^17 pixels needs up to 38.  The   *)
+(* pixel index floor ((m1 * x + m2 * y + m3 + half + off) / 65536) is therefore evaluated in split form:           *)
+(* x = 256 * xh + xl, y = 256 * yh + yl (0 <= xl, yl < 256), A = m1 * xh + m2 * yh, B = m1 * xl + m2 * yl:          *)
+(*   sum = 256 * A + B + m3 + half + off                                                                           *)
+(*       = 65536 * (A \div 256 + m3 \div 65536) + (A % 256) * 256 + B + m3 % 65536 + half + off                    *)
+(* every intermediate value stays below 2^31 for |m1|, |m2| <= 2^20, |x|, |y| <= 2^17, any 32-bit m3.               *)
+(* (mc/BoundsMC!SplitExact compares it with the direct evaluation wherever the latter fits.)                        *)
+WideIndex(m1, m2, m3, x, y, off) ==
+    LET xh == x \div 256   xl == x % 256
+        yh == y \div 256   yl == y % 256
+        A  == m1 * xh + m2 * yh
+        B  == m1 * xl + m2 * yl
+        half == FloorDiv2(m1 + m2 + 1)
+    IN  (A \div 256) + (m3 \div 65536) + (((A % 256) * 256 + B + (m3 % 65536) + half + off) \div 65536)
+WFits(m1, m2, x, y) ==
+    LET abs(v) == IF v < 0 THEN -v ELSE v IN
+    abs(m1) <= 1048576 /\ abs(m2) <= 1048576 /\ abs(x) <= 131072 /\ abs(y) <= 131072
+
+(* nearest: floor ((p - e) / 1.0) inside; bilinear: floor ((p - 1/2) / 1.0) and its successor inside *)
+WNearestInside(m1, m2, m3, x, y, size) ==
+    LET i == WideIndex(m1, m2, m3, x, y, -1) IN 0 <= i /\ i < size
+WBilinearInside(m1, m2, m3, x, y, size) ==
+    LET i == WideIndex(m1, m2, m3, x, y, -32768) IN 0 <= i /\ i + 1 < size
+WAllNearestInside(m, ext, sw, sh) ==
+    \A c \in Corners(ext[1], ext[2], ext[3], ext[4]) :
+        WNearestInside(m[1], m[2], m[3], c[1], c[2], sw) /\ WNearestInside(m[4], m[5], m[6], c[1], c[2], sh)
+WAllBilinearInside(m, ext, sw, sh) ==
+    \A c \in Corners(ext[1], ext[2], ext[3], ext[4]) :
+        WBilinearInside(m[1], m[2], m[3], c[1], c[2], sw) /\ WBilinearInside(m[4], m[5], m[6], c[1], c[2], sh)
+
+(* ---- dimensions converted to fixed point ---- *)
+(* The library's scanline walkers convert the width / height of an image to fixed point (repeat arithmetic; the     *)
+(* scaled main loops hand the scanline routine the END of the row and the position minus the width in fixed point,  *)
+(* for every repeat mode).  In a word of 2 * Half units that conversion wraps for sizes >= Half / One pixels, which  *)
+(* is why every request on a BITS image of >= Half / One - 1 pixels is refused, whatever its repeat mode.  The       *)
+(* operators below state that addressing scheme on a word of arbitrary size (mc/BoundsMC checks it on a small one).  *)
+WrapWord(v, Half) == ((v + Half) % (2 * Half)) - Half
+IntToFixedW(i, One, Half) == WrapWord(i * One, Half)
+(* pixel addressed for position vx (units) in a row of w pixels: row end + floor ((vx - fixed (w)) / 1.0) *)
+EndRelativeIndex(w, vx, One, Half) == w + (WrapWord(vx - IntToFixedW(w, One, Half), Half) \div One)
 =============================================================================
